@@ -18,7 +18,7 @@ use tokio::io::{AsyncRead, AsyncWrite, ReadBuf};
 // ---------------------------------------------------------------------------------------------
 // I/O error kinds used by fault injection
 
-pub const KINDS: [io::ErrorKind; 11] = [
+pub const KINDS: [io::ErrorKind; 38] = [
     // kinds a well-behaved async transport would express differently (Pending / retry) but which a
     // reader may still hand out as plain errors: they must surface like any other kind
     io::ErrorKind::WouldBlock,
@@ -34,7 +34,39 @@ pub const KINDS: [io::ErrorKind; 11] = [
     io::ErrorKind::Other,
     io::ErrorKind::InvalidInput,
     io::ErrorKind::InvalidData,
+    // the rest of the stable kinds (appended, so that kind ids in older replay files keep their
+    // meaning): a transport may fail with any of them and none is special to the codec
+    io::ErrorKind::NotFound,
+    io::ErrorKind::ConnectionRefused,
+    io::ErrorKind::HostUnreachable,
+    io::ErrorKind::NetworkUnreachable,
+    io::ErrorKind::NotConnected,
+    io::ErrorKind::AddrInUse,
+    io::ErrorKind::AddrNotAvailable,
+    io::ErrorKind::NetworkDown,
+    io::ErrorKind::AlreadyExists,
+    io::ErrorKind::NotADirectory,
+    io::ErrorKind::IsADirectory,
+    io::ErrorKind::DirectoryNotEmpty,
+    io::ErrorKind::ReadOnlyFilesystem,
+    io::ErrorKind::StaleNetworkFileHandle,
+    io::ErrorKind::WriteZero,
+    io::ErrorKind::StorageFull,
+    io::ErrorKind::NotSeekable,
+    io::ErrorKind::QuotaExceeded,
+    io::ErrorKind::FileTooLarge,
+    io::ErrorKind::ResourceBusy,
+    io::ErrorKind::ExecutableFileBusy,
+    io::ErrorKind::Deadlock,
+    io::ErrorKind::CrossesDevices,
+    io::ErrorKind::TooManyLinks,
+    io::ErrorKind::ArgumentListTooLong,
+    io::ErrorKind::Unsupported,
+    io::ErrorKind::OutOfMemory,
 ];
+
+/// Pseudo kind id for `SimReader::with_faults`: not an error but one empty read at that position.
+pub const EMPTY_READ: u8 = 255;
 
 pub fn kind_of(id: u8) -> io::ErrorKind {
     KINDS[id as usize % KINDS.len()]
@@ -261,6 +293,7 @@ pub const LOST_WAKE: &str = "LOST-WAKEUP";
 
 impl Core {
     pub fn new(trace: bool) -> CoreRef {
+        crate::runner::beat();
         Rc::new(RefCell::new(Core {
             hash: 0xcbf2_9ce4_8422_2325,
             trace: if trace { Some(Vec::new()) } else { None },
@@ -310,8 +343,13 @@ impl Core {
 thread_local! {
     /// reader fill style of the case being run (see `Case::reader_style`)
     pub static READER_STYLE: std::cell::Cell<u8> = const { std::cell::Cell::new(0) };
-    /// 1 = the simulated AsyncWrite advertises and implements vectored writes
+    /// bit 0: the simulated AsyncWrite advertises and implements vectored writes;
+    /// bits 1-2: how many times a flush / shutdown of the sink is not ready before it completes
     pub static WRITER_STYLE: std::cell::Cell<u8> = const { std::cell::Cell::new(0) };
+}
+
+pub fn flush_pendings() -> u8 {
+    (WRITER_STYLE.with(|s| s.get()) >> 1) & 3
 }
 
 pub struct SimReader {
@@ -381,6 +419,15 @@ impl AsyncRead for SimReader {
         }
         // one-shot injected error at this byte position
         for f in this.faults.iter_mut() {
+            if !f.2 && f.0 == pos && f.1 == EMPTY_READ {
+                // one-shot empty read: Ready(Ok) with nothing filled although data follows (what a
+                // reader wrapped around a drained buffer or a zero-length record hands out); every
+                // front-end must take it for the end of the stream
+                f.2 = true;
+                core.stats.eof += 1;
+                core.ev(Ev::ReadEof { pos, cap });
+                return Poll::Ready(Ok(()));
+            }
             if !f.2 && f.0 == pos {
                 f.2 = true;
                 core.stats.read_err += 1;
@@ -469,6 +516,8 @@ pub struct SimWriter {
     faults: Vec<(usize, Fault, bool)>,
     pub max_accept: usize,
     pub tail: usize,
+    /// not-ready results still to hand out before the current flush / shutdown completes
+    flush_left: u8,
 }
 
 impl SimWriter {
@@ -481,7 +530,26 @@ impl SimWriter {
             faults: Vec::new(),
             max_accept: usize::MAX,
             tail: 0,
+            flush_left: flush_pendings(),
         }
+    }
+
+    /// Flush / shutdown of the simulated sink: not-ready `flush_pendings()` times (woken at once),
+    /// then done. A sink that buffers (BufWriter, TLS) behaves like this; the bytes it has accepted
+    /// are not affected.
+    fn flush_step(&mut self, cx: &mut Context<'_>) -> Poll<io::Result<()>> {
+        let mut core = self.core.borrow_mut();
+        if self.flush_left > 0 {
+            self.flush_left -= 1;
+            core.stats.write_pending += 1;
+            core.transport_pending = true;
+            core.ev(Ev::Note("flush-pending", self.accepted.len() as u64));
+            core.register(WakeP::Now, cx.waker());
+            return Poll::Pending;
+        }
+        self.flush_left = flush_pendings();
+        core.ev(Ev::Note("flush", self.accepted.len() as u64));
+        Poll::Ready(Ok(()))
     }
 
     pub fn with_faults(mut self, faults: &[(usize, Fault)]) -> SimWriter {
@@ -576,14 +644,14 @@ impl AsyncWrite for SimWriter {
         let w = cx.waker().clone();
         self.get_mut().step(buf, Some(&w))
     }
-    fn poll_flush(self: Pin<&mut Self>, _cx: &mut Context<'_>) -> Poll<io::Result<()>> {
-        Poll::Ready(Ok(()))
+    fn poll_flush(self: Pin<&mut Self>, cx: &mut Context<'_>) -> Poll<io::Result<()>> {
+        self.get_mut().flush_step(cx)
     }
-    fn poll_shutdown(self: Pin<&mut Self>, _cx: &mut Context<'_>) -> Poll<io::Result<()>> {
-        Poll::Ready(Ok(()))
+    fn poll_shutdown(self: Pin<&mut Self>, cx: &mut Context<'_>) -> Poll<io::Result<()>> {
+        self.get_mut().flush_step(cx)
     }
     fn is_write_vectored(&self) -> bool {
-        WRITER_STYLE.with(|s| s.get()) == 1
+        WRITER_STYLE.with(|s| s.get()) & 1 == 1
     }
     /// Gathered write: the buffers are taken as one logical buffer, so a short write can end
     /// anywhere inside any of them (what a socket with a nearly full send buffer does).
